@@ -87,4 +87,22 @@ example : (irun { ib := IBuf.create 0, src := { data := [1, 2, 3, 4, 5], cur := 
 example : (ispecRun [1, 2, 3, 4, 5] [.get, .peek, .read 3, .read 3, .get]).1 =
     [.char (some 1), .char (some 2), .block [2, 3, 4], .block [5], .char none] := by decide +kernel
 
+/-! set_stream: read stream 0 to EOF (eofbit|failbit set), attach stream 1: extraction resumes on its bytes;
+attach stream 0 again after it was repositioned while detached -/
+
+example : okHistory 3 0 [.read 5000, .get, .setStream 1, .get, .useek 0 1, .setStream 0, .raw (.read 9), .get, .clear, .get] := by
+  simp [okHistory, IOp.isSeek]
+example : (frun { st := { ib := IBuf.create 2, src := { data := [97, 98, 99], cur := 0 } }, idx := 0,
+                  parked := [{ data := [97, 98, 99], cur := 0 }, { data := [88, 89, 90], cur := 0 }, { data := [81], cur := 0 }],
+                  eofbit := false, failbit := false }
+      [.read 5000, .get, .setStream 1, .get, .useek 0 1, .setStream 0, .raw (.read 9), .get]).map
+        (fun r => (r.2.1, r.2.2, r.1.eofbit, r.1.failbit, r.1.st.ib.count)) =
+    some ([.block [97, 98, 99], .char none, .unit, .char (some 88), .unit, .unit, .block [98, 99], .char none],
+          [[88, 89, 90], [98, 99]], true, true, 7) := by decide +kernel
+example : (orun { ob := OBuf.create 3, sink := { data := [], cur := 0 }, idx := 0,
+                  parked := [{ data := [], cur := 0 }, { data := [], cur := 0 }] }
+      [.put 1, .setStream 1, .write [2, 3, 4, 5, 6], .setStream 0, .put 7, .destroy]).map
+        (fun r => (r.2, r.1.ob.count, r.1.sink.data, r.1.parked.map (·.data))) =
+    some ([[1], [2, 3, 4], [5, 6], [7]], 7, [1, 7], [[1], [2, 3, 4, 5, 6]]) := by decide +kernel
+
 end DmlcModel.Props.C19
